@@ -2,8 +2,11 @@
 package main
 
 import (
+	"encoding/json"
 	"fmt"
+	"math"
 	"sort"
+	"strconv"
 	"strings"
 
 	"go.opentelemetry.io/otel/attribute"
@@ -212,6 +215,48 @@ func checkSetAgainstModel(k *vf.Case, what string, s *attribute.Set, m vf.AttrMo
 	return ok
 }
 
+// emitModel is the harness's own rendering of a non-string value in the default encoding: scalars by strconv /
+// fmt, bool slices by fmt, the other slices as JSON arrays. A float64 slice holding NaN or an infinity has no
+// JSON form; there the library's text is taken as long as it is not empty and names the non-finite elements.
+func emitModel(v attribute.Value) string {
+	switch v.Type() {
+	case attribute.BOOL:
+		return strconv.FormatBool(v.AsBool())
+	case attribute.INT64:
+		return strconv.FormatInt(v.AsInt64(), 10)
+	case attribute.FLOAT64:
+		return fmt.Sprint(v.AsFloat64())
+	case attribute.BOOLSLICE:
+		return fmt.Sprint(v.AsBoolSlice())
+	case attribute.INT64SLICE:
+		j, _ := json.Marshal(v.AsInt64Slice())
+		return string(j)
+	case attribute.STRINGSLICE:
+		j, _ := json.Marshal(v.AsStringSlice())
+		return string(j)
+	case attribute.FLOAT64SLICE:
+		fs := v.AsFloat64Slice()
+		if j, err := json.Marshal(fs); err == nil {
+			return string(j)
+		}
+		got := v.Emit()
+		ok := got != ""
+		for _, f := range fs {
+			if math.IsNaN(f) && !strings.Contains(got, "NaN") {
+				ok = false
+			}
+			if math.IsInf(f, 0) && !strings.Contains(got, "Inf") {
+				ok = false
+			}
+		}
+		if ok {
+			return got
+		}
+		return "<a non-empty text naming the non-finite elements of " + fmt.Sprint(fs) + ">"
+	}
+	return v.Emit()
+}
+
 func encodeModel(m vf.AttrModel) string {
 	esc := func(s string) string {
 		var sb strings.Builder
@@ -229,11 +274,25 @@ func encodeModel(m vf.AttrModel) string {
 		if v.Type() == attribute.STRING {
 			p = append(p, esc(key)+"="+esc(v.AsString()))
 		} else {
-			p = append(p, esc(key)+"="+v.Emit())
+			p = append(p, esc(key)+"="+emitModel(v))
 		}
 	}
 	return strings.Join(p, ",")
 }
+
+// keyEncoder is a second Encoder with an identity of its own: it writes the keys only.
+type keyEncoder struct{ id attribute.EncoderID }
+
+func (e keyEncoder) Encode(it attribute.Iterator) string {
+	var p []string
+	for it.Next() {
+		p = append(p, "<"+string(it.Attribute().Key)+">")
+	}
+	return strings.Join(p, "")
+}
+func (e keyEncoder) ID() attribute.EncoderID { return e.id }
+
+var theKeyEncoder = keyEncoder{id: attribute.NewEncoderID()}
 
 func main() {
 	vf.Main("C05", "exploration", func(c *vf.Ctx) {
@@ -319,6 +378,14 @@ func main() {
 			// encoding
 			if got, want := s.Encoded(attribute.DefaultEncoder()), encodeModel(m); got != want {
 				k.Violate("encoded-mismatch", "", fmt.Sprintf("got  %s\nwant %s", vf.Quote(got), vf.Quote(want)), nil)
+			}
+			// another encoder right after the default one on the same set, and the default one again: each call
+			// gives that encoder's own text
+			if got, want := s.Encoded(theKeyEncoder), theKeyEncoder.Encode(s.Iter()); got != want {
+				k.Violate("encoded-mismatch", "second encoder", fmt.Sprintf("got  %s\nwant %s", vf.Quote(got), vf.Quote(want)), nil)
+			}
+			if got, want := s.Encoded(attribute.DefaultEncoder()), encodeModel(m); got != want {
+				k.Violate("encoded-mismatch", "default encoder after another one", fmt.Sprintf("got  %s\nwant %s", vf.Quote(got), vf.Quote(want)), nil)
 			}
 
 			// identity: self, rebuild, permutations
